@@ -503,6 +503,11 @@ func genPoll(p *simkit.Plan, r *simkit.Rand, tier string) {
 	c := p.Cfg
 	c["fs_gates"] = int64(simkit.Pick(r, []int{0, 32, 33, 35, 2}))
 	c["sched_sticky"] = int64(simkit.Pick(r, []int{0, 50}))
+	// Stalls: the controller's transition (or scan) stays parked at a system
+	// call while polling ticks fire and the poller scans in between.
+	if c["fs_gates"] != 0 {
+		c["sched_stall"] = int64(simkit.Pick(r, []int{0, 30, 100}))
+	}
 	var id int64 = 100
 	for i := r.Range(0, 4); i > 0; i-- {
 		genEditOn(r, p, "init", &id, "beta")
@@ -788,13 +793,16 @@ func execPoll(t *testing.T, plan *simkit.Plan) *simkit.Result {
 				divergedSince = -1
 				return
 			}
+			// (Measured on the clock that stands still during stalls: while the
+			// simulator holds the poller's own system calls back, nothing can
+			// be expected of it.)
 			if divergedSince < 0 {
-				divergedSince = s.Now()
+				divergedSince = s.Unstalled()
 				return
 			}
-			if s.Now()-divergedSince > bound {
-				s.Violate("C42", "change-not-notified", "Poll", "the root has differed from the controller's last snapshot for %v of simulated time (since %v) and Poll has not returned: controller knows %s, disk holds %s", s.Now()-divergedSince, divergedSince, render(k), render(disk))
-				divergedSince = s.Now() + time.Hour
+			if s.Unstalled()-divergedSince > bound {
+				s.Violate("C42", "change-not-notified", "Poll", "the root has differed from the controller's last snapshot for %v of simulated time (since %v) and Poll has not returned: controller knows %s, disk holds %s", s.Unstalled()-divergedSince, divergedSince, render(k), render(disk))
+				divergedSince = s.Unstalled() + time.Hour
 			}
 		}
 		userDone := func() bool {
